@@ -2138,11 +2138,7 @@ class tensor:
         elif isinstance(key, slice):
             idx = np.array(range(prod(self.shape))[key])
         idx = tt_ind2sub(self.shape, idx)
-        if idx.shape[0] == 1:
-            self.data[tuple(idx[0, :])] = value
-        else:
-            actualIdx = tuple(idx.transpose())
-            self.data[actualIdx] = value
+        self.data[tuple(idx.transpose())] = value
 
     def _set_subtensor(self, key, value):  # noqa: PLR0912
         # Extract array of subscripts
@@ -2215,10 +2211,7 @@ class tensor:
             self.shape = tuple(newsiz)
 
         # Finally we can copy in new data
-        if key.shape[0] == 1:  # and len(key.shape) == 1:
-            self.data[tuple(key[0, :])] = value
-        else:
-            self.data[tuple(key.transpose())] = value
+        self.data[tuple(key.transpose())] = value
 
     def __getitem__(self, item):  # noqa: PLR0912
         """
